@@ -3,6 +3,8 @@ package fbbsim
 import (
 	"bytes"
 	"fmt"
+	"sort"
+	"strconv"
 	"strings"
 	"time"
 
@@ -39,9 +41,19 @@ var epoch = time.Date(2015, 1, 1, 0, 0, 0, 0, time.UTC)
 // (the executor then leaves it out of the scenario: C01 quantifies over valid
 // messages only).
 func (d Msg) Build() (m *fbb.Message, raw []byte, ok bool) {
+	m, raw, _, ok = d.BuildFull()
+	return
+}
+
+// BuildFull also returns composed: the serialisation of the message as it was
+// put together field by field, before the library parsed anything. "queued"
+// (raw) went through the library's own parser once; comparing deliveries with
+// it alone would accept any damage that parser does consistently, so the
+// oracles also compare contents (semOf) with composed.
+func (d Msg) BuildFull() (m *fbb.Message, raw, composed []byte, ok bool) {
 	defer func() {
 		if r := recover(); r != nil {
-			m, raw, ok = nil, nil, false
+			m, raw, composed, ok = nil, nil, nil, false
 		}
 	}()
 	m = fbb.NewMessage(fbb.MsgType(d.Type), d.From)
@@ -55,11 +67,11 @@ func (d Msg) Build() (m *fbb.Message, raw []byte, ok bool) {
 		m.SetSubject(d.Subject)
 	}
 	if err := m.SetBody(d.Body); err != nil {
-		return nil, nil, false
+		return nil, nil, nil, false
 	}
 	for _, f := range d.Files {
 		if f.Name == "" {
-			return nil, nil, false
+			return nil, nil, nil, false
 		}
 		m.AddFile(fbb.NewFile(f.Name, f.Data))
 	}
@@ -67,27 +79,150 @@ func (d Msg) Build() (m *fbb.Message, raw []byte, ok bool) {
 		m.Header.Set("X-P2POnly", "true")
 	}
 	if err := m.Validate(); err != nil {
-		return nil, nil, false
+		return nil, nil, nil, false
 	}
-	raw, err := m.Bytes()
+	composed, err := m.Bytes()
 	if err != nil {
-		return nil, nil, false
+		return nil, nil, nil, false
 	}
 	// What a mailbox hands to the session is a message parsed from storage.
 	// Use the re-serialisation of the parsed form as "what was queued" so that
 	// C01 does not inherit serialisation-canonicity questions (that is C09).
 	m2 := new(fbb.Message)
-	if err := m2.ReadFrom(bytes.NewReader(raw)); err != nil {
-		return nil, nil, false
+	if err := m2.ReadFrom(bytes.NewReader(composed)); err != nil {
+		return nil, nil, nil, false
 	}
 	raw2, err := m2.Bytes()
 	if err != nil {
-		return nil, nil, false
+		return nil, nil, nil, false
 	}
 	if err := m2.Validate(); err != nil {
-		return nil, nil, false
+		return nil, nil, nil, false
 	}
-	return m2, raw2, true
+	return m2, raw2, composed, true
+}
+
+// msgSem is the content of a serialised message, taken apart without the
+// library: header fields (lower-cased name, trimmed value, sorted), body and
+// attachment bytes as delimited by the Body and File headers.
+type msgSem struct {
+	Hdr   []string
+	Body  []byte
+	Files [][]byte
+}
+
+func semOf(raw []byte) (sem msgSem, ok bool) {
+	end := bytes.Index(raw, []byte("\r\n\r\n"))
+	if end < 0 {
+		return sem, false
+	}
+	bodyN := -1
+	var fileN []int
+	var cur string
+	flush := func() bool {
+		if cur == "" {
+			return true
+		}
+		k := strings.IndexByte(cur, ':')
+		if k <= 0 {
+			return false
+		}
+		name, val := strings.ToLower(cur[:k]), strings.Trim(cur[k+1:], " \t")
+		sem.Hdr = append(sem.Hdr, name+":"+val)
+		switch name {
+		case "body":
+			n, err := strconv.Atoi(val)
+			if err != nil || n < 0 {
+				return false
+			}
+			bodyN = n
+		case "file":
+			f := strings.SplitN(val, " ", 2)
+			n, err := strconv.Atoi(f[0])
+			if err != nil || n < 0 {
+				return false
+			}
+			fileN = append(fileN, n)
+		}
+		cur = ""
+		return true
+	}
+	for _, line := range strings.Split(string(raw[:end]), "\r\n") {
+		if line != "" && (line[0] == ' ' || line[0] == '\t') && cur != "" {
+			cur += " " + strings.Trim(line, " \t")
+			continue
+		}
+		if !flush() {
+			return sem, false
+		}
+		cur = line
+	}
+	if !flush() || bodyN < 0 {
+		return sem, false
+	}
+	sort.Strings(sem.Hdr)
+	rest := raw[end+4:]
+	take := func(n int) ([]byte, bool) {
+		if len(rest) < n {
+			return nil, false
+		}
+		b := rest[:n]
+		rest = rest[n:]
+		if bytes.HasPrefix(rest, []byte("\r\n")) {
+			rest = rest[2:]
+		}
+		return b, true
+	}
+	if sem.Body, ok = take(bodyN); !ok {
+		return sem, false
+	}
+	for _, n := range fileN {
+		b, ok := take(n)
+		if !ok {
+			return sem, false
+		}
+		sem.Files = append(sem.Files, b)
+	}
+	return sem, true
+}
+
+// sameContent: do two serialised messages carry the same header fields, body
+// and attachments? why names the first difference.
+func sameContent(got, want []byte) (same bool, why string) {
+	g, gok := semOf(got)
+	w, wok := semOf(want)
+	switch {
+	case !wok:
+		return true, "" // nothing to compare with
+	case !gok:
+		return false, "does not take apart into header, body and attachments"
+	case !bytes.Equal(g.Body, w.Body):
+		return false, fmt.Sprintf("body differs (%d vs %d bytes, first difference at %d)", len(g.Body), len(w.Body), commonPrefixLen(g.Body, w.Body))
+	case len(g.Files) != len(w.Files):
+		return false, fmt.Sprintf("%d attachments instead of %d", len(g.Files), len(w.Files))
+	}
+	for i := range g.Files {
+		if !bytes.Equal(g.Files[i], w.Files[i]) {
+			return false, fmt.Sprintf("attachment %d differs (%d vs %d bytes, first difference at %d)", i, len(g.Files[i]), len(w.Files[i]), commonPrefixLen(g.Files[i], w.Files[i]))
+		}
+	}
+	if strings.Join(g.Hdr, "\n") != strings.Join(w.Hdr, "\n") {
+		for i := range w.Hdr {
+			if i >= len(g.Hdr) || g.Hdr[i] != w.Hdr[i] {
+				return false, fmt.Sprintf("header fields differ: want %q", w.Hdr[i])
+			}
+		}
+		return false, "additional header fields"
+	}
+	return true, ""
+}
+
+func commonPrefixLen(a, b []byte) int {
+	n := 0
+	for n < len(a) && n < len(b) && a[n] == b[n] {
+		n++
+	}
+	return n
 }
 
 const alnum = "ABCDEFGHIJKLMNOPQRSTUVWXYZ0123456789"
